@@ -1,0 +1,189 @@
+//go:build verif
+
+// Verification hooks (build tag "verif" only): exported wrappers around unexported pure / IO
+// functions so that an out-of-package harness can drive the real code in-process. Nothing in
+// this file changes behaviour; without the tag it is not compiled.
+
+package p9
+
+import (
+	"io"
+	"reflect"
+	"unsafe"
+
+	"github.com/u-root/uio/ulog"
+)
+
+// VerifField is a settable handle on one leaf field of a message struct.
+type VerifField struct {
+	// Path is the dotted Go field path, e.g. "Auth.AttachName".
+	Path string
+	// Val is the addressable, settable field value (unexported fields included).
+	Val reflect.Value
+}
+
+// VerifMsgTypes returns every registered message type, in ascending order.
+func VerifMsgTypes() []uint8 {
+	var out []uint8
+	for t := range msgDotLRegistry.factories {
+		if msgDotLRegistry.factories[t].create != nil {
+			out = append(out, uint8(t))
+		}
+	}
+	return out
+}
+
+// VerifNewMsg creates a fresh message of the given type (bypassing the cache).
+func VerifNewMsg(t uint8) (interface{}, bool) {
+	f := msgDotLRegistry.factories[t].create
+	if f == nil {
+		return nil, false
+	}
+	return f(), true
+}
+
+// VerifGet is msgDotLRegistry.get (may return a recycled object).
+func VerifGet(t uint8) (interface{}, error) {
+	return msgDotLRegistry.get(0, msgType(t))
+}
+
+// VerifPut is msgDotLRegistry.put.
+func VerifPut(m interface{}) { msgDotLRegistry.put(m.(message)) }
+
+// VerifTypeOf returns m.typ().
+func VerifTypeOf(m interface{}) uint8 { return uint8(m.(message).typ()) }
+
+// VerifString returns m.String().
+func VerifString(m interface{}) string { return m.(message).String() }
+
+// VerifLargestFixedSize returns msgDotLRegistry.largestFixedSize.
+func VerifLargestFixedSize() uint32 { return msgDotLRegistry.largestFixedSize }
+
+// VerifFields lists the leaf fields of a message in struct declaration order.
+func VerifFields(m interface{}) []VerifField {
+	var out []VerifField
+	var walk func(prefix string, v reflect.Value)
+	walk = func(prefix string, v reflect.Value) {
+		t := v.Type()
+		for i := 0; i < t.NumField(); i++ {
+			f := v.Field(i)
+			// Lift the read-only flag of unexported fields.
+			f = reflect.NewAt(f.Type(), unsafe.Pointer(f.UnsafeAddr())).Elem()
+			name := t.Field(i).Name
+			if prefix != "" {
+				name = prefix + "." + name
+			}
+			if f.Kind() == reflect.Struct {
+				walk(name, f)
+				continue
+			}
+			out = append(out, VerifField{Path: name, Val: f})
+		}
+	}
+	walk("", reflect.ValueOf(m).Elem())
+	return out
+}
+
+// VerifSend is send().
+func VerifSend(w io.Writer, tag uint16, m interface{}) error {
+	return send(ulog.Null, w, tagOf(tag), m.(message))
+}
+
+func tagOf(t uint16) tag { return tag(t) }
+
+// VerifRecv is recv() with the server's lookup (msgDotLRegistry.get).
+func VerifRecv(r io.Reader, msize uint32) (uint16, interface{}, error) {
+	t, m, err := recv(ulog.Null, r, msize, msgDotLRegistry.get)
+	if m == nil {
+		return uint16(t), nil, err
+	}
+	return uint16(t), m, err
+}
+
+// VerifRecvWith is recv() with a caller-supplied lookup returning a message obtained from
+// VerifNewMsg / VerifGet.
+func VerifRecvWith(r io.Reader, msize uint32, lookup func(tag uint16, t uint8) (interface{}, error)) (uint16, interface{}, error) {
+	t, m, err := recv(ulog.Null, r, msize, func(t tag, mt msgType) (message, error) {
+		x, err := lookup(uint16(t), uint8(mt))
+		if err != nil {
+			return nil, err
+		}
+		return x.(message), nil
+	})
+	if m == nil {
+		return uint16(t), nil, err
+	}
+	return uint16(t), m, err
+}
+
+// VerifIsConnError reports whether err is a ConnError.
+func VerifIsConnError(err error) bool {
+	_, ok := err.(ConnError)
+	return ok
+}
+
+// VerifPayload returns Payload() of a payloader.
+func VerifPayload(m interface{}) ([]byte, bool) {
+	p, ok := m.(payloader)
+	if !ok {
+		return nil, false
+	}
+	return p.Payload(), true
+}
+
+// VerifFixedSize returns FixedSize() of a payloader.
+func VerifFixedSize(m interface{}) (uint32, bool) {
+	p, ok := m.(payloader)
+	if !ok {
+		return 0, false
+	}
+	return p.FixedSize(), true
+}
+
+// VerifChunk is chunk().
+func VerifChunk(chunkSize uint32, fn func([]byte, int64) (int, error), p []byte, offset int64) (int, error) {
+	return chunk(chunkSize, fn, p, offset)
+}
+
+// VerifPool is a fresh pool{start, limit}.
+type VerifPool struct{ p pool }
+
+// VerifNewPool returns a pool allocator.
+func VerifNewPool(start, limit uint64) *VerifPool { return &VerifPool{p: pool{start: start, limit: limit}} }
+
+// Get is pool.Get.
+func (v *VerifPool) Get() (uint64, bool) { return v.p.Get() }
+
+// Put is pool.Put.
+func (v *VerifPool) Put(x uint64) { v.p.Put(x) }
+
+// VerifParseVersion is parseVersion().
+func VerifParseVersion(s string) (string, uint32, bool) {
+	b, v, ok := parseVersion(s)
+	return string(b), v, ok
+}
+
+// VerifVersionString is versionString().
+func VerifVersionString(base string, v uint32) string { return versionString(baseVersion(base), v) }
+
+// VerifCheckSafeName is checkSafeName().
+func VerifCheckSafeName(name string) error { return checkSafeName(name) }
+
+// VerifRoundDown is roundDown().
+func VerifRoundDown(p, align uint32) uint32 { return roundDown(p, align) }
+
+// VerifWithRequestedVersion makes NewClient start negotiating at version v.
+func VerifWithRequestedVersion(v uint32) ClientOpt {
+	return func(c *Client) error {
+		c.version = v
+		return nil
+	}
+}
+
+// VerifClientSizes returns the client's message and payload sizes.
+func VerifClientSizes(c *Client) (uint32, uint32) { return c.messageSize, c.payloadSize }
+
+// VerifVersionPredicates returns the version feature predicates.
+func VerifVersionPredicates(v uint32) (walkgetattr, ucreation bool) {
+	return versionSupportsTwalkgetattr(v), versionSupportsTucreation(v)
+}
